@@ -74,6 +74,17 @@ def n_cases(tier):
 def _gen_keys(rng, ncols):
     ng = rng.choice([1, 2, 2, 3, 3, 4])
     r = rng.random()
+    if r > 0.94:
+        # many groups (11-14 combinations): integer group codes have two digits, so any ordering of codes "as text" differs
+        # from the numeric order
+        ng = rng.randint(11, 14)
+        pools = [rng.sample(VALUE_POOL, min(len(VALUE_POOL), 5 if ncols > 1 else 14)) for _ in range(ncols)]
+        keys = set()
+        for _ in range(400):
+            keys.add(tuple(rng.choice(p) for p in pools))
+            if len(keys) >= ng:
+                break
+        return sorted(keys, key=lambda k: rng.random())
     if ncols == 2 and r < 0.25:
         base = [("a_b", "c"), ("a", "b_c"), ("a", "b"), ("a_b", "b_c"), ("", "a_b_c"), ("a_b_c", "")]
         rng.shuffle(base)
@@ -811,6 +822,16 @@ def build(inp) -> Case:
             samples = [c[2] for c in rec.calls]
         else:
             r = common.call(showbias, df, **kw)
+            if r[0] == "ok" and norm is not None:
+                # the same table under the caller's strict floating-point error state: a zero divisor leaves the metric
+                # un-normalised - it is not divided by and then discarded
+                with np.errstate(divide="raise", invalid="raise"):
+                    r_strict = common.call(showbias, df, **kw)
+                if r_strict[0] == "exc":
+                    pre.append(Issue("PROPFAIL", "raises", f"{where}: under np.errstate(divide='raise', invalid='raise') showbias raised "
+                                     f"{r_strict[1]}: {r_strict[2]}; without it the table is returned", f"{sig0}/raises/strict-errstate"))
+                elif not r_strict[1].values.equals(r[1].values):
+                    pre.append(Issue("PROPFAIL", "norm", f"{where}: the table depends on the ambient NumPy error state", f"{sig0}/ambient"))
         evals += 1
         if r[0] == "exc":
             sig = f"{sig0}/raises/{r[1]}"
